@@ -107,6 +107,7 @@ type world struct {
 	obsJSON []map[string]any
 	dead    string // non-empty: the real code hung / misbehaved, stop driving
 	esz     uint64
+	feat    map[string]bool // schedule features, for the evidence distribution
 }
 
 func newCounter() prometheus.Counter { return prometheus.NewCounter(prometheus.CounterOpts{Name: "x"}) }
@@ -117,7 +118,7 @@ func newWorld(lim uint64) *world {
 		SizeRead: newCounter(), SizeOccupied: newCounter(), SizeReleased: newCounter(),
 		MapsRecreated: newCounter(), MissLatency: newCounter()}
 	return &world{lim: lim, cl: cache.NewCleaner(lim, nil), met: m, ids: map[any]int{},
-		latest: map[[2]int]int{}, dirty: map[[2]int]int{}}
+		latest: map[[2]int]int{}, dirty: map[[2]int]int{}, feat: map[string]bool{}}
 }
 
 func (w *world) waits() float64 {
@@ -162,6 +163,7 @@ func (w *world) settle(id int, w0 float64) {
 		if w.waits() > w0 {
 			t.status = 11
 			t.waitsOn = w.latest[[2]int{t.c, t.k}]
+			w.feat["sched:waiter-behind-creator"] = true
 			return
 		}
 		runtime.Gosched()
@@ -233,6 +235,9 @@ func (w *world) resume(id int) {
 			wakers = append(wakers, i)
 		}
 	}
+	if len(wakers) > 0 && t.kind != kVal {
+		w.feat["sched:waiter-reattempts-after-failed-creator"] = true
+	}
 	w0 := w.waits()
 	t.resume <- struct{}{}
 	select {
@@ -287,6 +292,9 @@ func (w *world) do(e Evt) {
 			ret = []int64{1, int64(st.TotalSize), int64(st.SizeToClean), int64(st.GensCleaned), int64(st.BytesReleased), int64(st.BucketsCleaned)}
 			w.epoch++
 			for i, t := range w.thr {
+				if t.status == 10 {
+					w.feat["sched:cleaning-pass-while-creator-in-loader"] = true
+				}
 				if t.status == 10 && t.kind != kVal {
 					w.dirty[[2]int{t.c, t.k}] = i
 				}
@@ -296,6 +304,9 @@ func (w *world) do(e Evt) {
 		}
 	case "gcgens":
 		ret = []int64{int64(w.cl.CleanEmptyGenerations())}
+		if ret[0] > 0 && !w.gcSafe() {
+			w.feat["sched:generations-dropped-while-older-creator-in-loader"] = true
+		}
 	case "relbuckets":
 		ret = []int64{int64(w.cl.ReleaseBuckets())}
 	default:
@@ -451,6 +462,9 @@ func (w *world) emit(cw *casefile.Writer, class string, strict bool) {
 	}
 	cw.Add(term, class, hasCall && hasMaint, sc, map[string]any{"obs": w.obsJSON, "gens": gsz, "caches": snapsJ})
 	cw.Count(fmt.Sprintf("events:%d", (len(w.evs)/8)*8))
+	for f := range w.feat {
+		cw.Count(f)
+	}
 	_ = nEntries
 }
 
